@@ -1932,6 +1932,10 @@ class GitClient:
                     raise GitProtocolError(data.decode("utf-8", "replace"))
                 else:
                     raise GitProtocolError(f"Invalid sideband channel {chan}")
+            if pktline_parser is not None and pktline_parser.get_tail():
+                # the report inside the side band ended in the middle of a
+                # packet: what it was going to say about a ref is lost
+                raise GitProtocolError("status report truncated inside the side band")
         else:
             if CAPABILITY_REPORT_STATUS in capabilities:
                 assert self._report_status_parser
